@@ -120,7 +120,7 @@ pub mod w5 {
     /// use desert::DeserializationContext;
     /// let bytes = vec![1u8];
     /// let ctx = DeserializationContext::new(&bytes);
-    /// let _ = ctx.state().refs_by_id.len();
+    /// let _ = &ctx.state().refs_by_id;
     /// ```
     pub struct Bad;
 
